@@ -45,7 +45,7 @@ def code_lines(path):
             indoc = not indoc
             continue
         if indoc or not st or st.startswith('#') or st.startswith('raise ') or st.startswith('def ') or st.startswith('class ') \
-                or st.startswith('"""') or 'PyCdlibInternalError' in st or st.startswith('import ') or st.startswith('from '):
+                or st.startswith('"""') or 'PyCdlibInternalError' in st or '_initialized' in st or st.startswith('import ') or st.startswith('from '):
             continue
         if not ln.startswith('    '):
             continue
